@@ -270,6 +270,22 @@ func init() {
 			if !q {
 				jobs = append(jobs, Job{Pkg: "root", Func: "VerifC08DNSTemplate", Args: []int64{2}, SplitN: 192, Cfg: ci(64, 1500)})
 			}
+			// handler level: the ICMPv6 / ICMPv4 handlers on every accepted frame with an arbitrary ICMP message
+			hc := Config{MaxLoop: 200, MaxWall: 1500, Stubs: map[string]bool{"uf-checksum": true}}
+			n6, n4 := pick(24, 32), pick(16, 32)
+			jobs = append(jobs, Job{Pkg: "handlers/icmp_spoofer", Func: "VerifC08ICMP6Packet", Args: []int64{n6}, SplitN: int(n6) + 1, Cfg: hc, Reach: []string{"processed"}})
+			jobs = append(jobs, Job{Pkg: "handlers/icmp_spoofer", Func: "VerifC08ICMP4Packet", Args: []int64{n4}, SplitN: int(n4) + 1, Cfg: hc, Reach: []string{"processed"}})
+			// the DHCP handler on every DHCPv4 frame with arbitrary BOOTP fields and an arbitrary options area
+			dc := Config{MaxLoop: 1200, MaxWall: 1500, Stubs: map[string]bool{}}
+			modes := []int64{2}
+			if !q {
+				modes = []int64{1, 2, 3}
+			}
+			for _, m := range modes {
+				nd := pick(5, 6)
+				jobs = append(jobs, Job{Pkg: "handlers/dhcp4_spoofer", Func: "VerifC08DHCPPacket", Args: []int64{m, 0, nd}, SplitN: int(nd) + 1, Cfg: dc, Reach: []string{"processed"}})
+				jobs = append(jobs, Job{Pkg: "handlers/dhcp4_spoofer", Func: "VerifC08DHCPPacket", Args: []int64{m, 1, 6}, SplitN: 7, Cfg: dc, Reach: []string{"processed"}})
+			}
 			return jobs
 		},
 		Bounds: func(tier string) map[string]string {
@@ -284,6 +300,8 @@ func init() {
 				"decodeName":             "arbitrary buffers of length 0.." + s("6", "8") + " (one job per length), arbitrary offset, any capacity; pointer chains to the code's own recursion limit (255)",
 				"DNS question + answers": "three message templates (label / pointer question names, one or two answers, rdata with a nested label+pointer) in which " + s("each single field", "each single field and every pair of fields") + " among ANCount, label lengths, pointer targets, record type, RDLENGTH, first rdata byte is arbitrary, truncated at every offset",
 				"NDP options":            "arbitrary option bytes of length 0.." + s("16", "23"),
+				"DHCP handler":           "ProcessPacket (secondary mode; thorough: all three modes) on every frame the real Parse classifies as DHCPv4, client->server and server->client, with every BOOTP header field arbitrary and an options area of 0.." + s("5", "6") + " arbitrary bytes (server->client: 0..6)",
+				"ICMP handlers":          "ICMPv6 handler ProcessPacket (hunt list of 0..1 entries) on every frame accepted by the real Parse whose ICMPv6 message is 0.." + s("24", "32") + " arbitrary bytes (every type, code, body, option bytes); ICMPv4 handler likewise with 0.." + s("16", "32") + " bytes",
 				"hop-by-hop, LLDP TLVs":  "arbitrary bytes of length 0.." + s("14 / 12", "17 / 16"),
 				"DHCP options":           "240-byte header + 0.." + s("6", "8") + " arbitrary option bytes",
 				"802.3/LLC":              "frames accepted by Parse as 802.3, length 14..40",
